@@ -80,7 +80,7 @@ function* textModules(items, prefix, hostOf) {
   }
 }
 
-const CHILD_KINDS = ['text', 'textWs', 'textMulti', 'expr', 'exprStr', 'empty', 'comment', 'spread', 'spreadEmpty', 'el', 'frag', 'elWithKids', 'litNull', 'litBool', 'litNum', 'litStr', 'undef'];
+const CHILD_KINDS = ['text', 'textWs', 'textMulti', 'expr', 'exprStr', 'empty', 'comment', 'spread', 'spreadEmpty', 'el', 'frag', 'elWithKids', 'litNull', 'litBool', 'litNum', 'litStr', 'undef', 'tplStatic'];
 function makeChild(b, rng, kind, st) {
   switch (kind) {
     case 'text': return C.text(`w${st.n++}`);
@@ -93,6 +93,8 @@ function makeChild(b, rng, kind, st) {
     case 'litNum': return C.expr(b.leaf('0'), '0');
     case 'litStr': return C.expr(b.leaf('""'), '""');
     case 'undef': return C.expr(b.leaf('undefined'), 'undefined');
+    // a template literal is an expression: its value is not JSX text and keeps its line breaks, tabs and blanks
+    case 'tplStatic': { const v = rng.pick(['`line1\n  line2\n`', '`a\tb\n`', '``', '`  pad  `', '`x`']); return C.expr(b.leaf(v), v); }
     case 'empty': return C.empty();
     case 'comment': return C.comment();
     case 'spread': { const g = b.global({ k: 'arr', v: [{ k: 'str', v: `sp${st.n++}` }, { k: 'sent' }] }); return C.spread(b.leaf(g), g); }
